@@ -305,6 +305,10 @@ class IDToken(Token):
 
         lifetime = self.lifetime
 
+        # A client that registered an encryption algorithm for ID tokens expects them encrypted
+        if not encrypt and "id_token_encrypted_response_alg" in _context.cdb.get(client_id, {}):
+            encrypt = True
+
         id_token = self.sign_encrypt(
             session_id,
             client_id,
